@@ -16,6 +16,8 @@ import Fbr.Lemmas.OvlCopyUp
 import Fbr.Lemmas.OvlOps
 import Fbr.Lemmas.OvlCreate
 import Fbr.Lemmas.OvlRmdirB
+import Fbr.Lemmas.OvlEffects
+import Fbr.Lemmas.OvlAttr
 
 namespace Fbr.Ovl
 
@@ -107,6 +109,10 @@ theorem mkLike_link (src : Path) (n : Name) (X : Node) (hXa : X.isAbsent = false
     simp only [Real.link, hu, Bool.not_true, Bool.false_eq_true, if_false]
     rw [bind_err (layerCall_err Method.link hL (by rw [hlink L r.path hC]; exact hf))]
 
+/-- what a successful link leaves: both names show the same non-directory -/
+def Linked (src dst : Path) (d : Disk) : Prop :=
+  ∃ X X', specStat d src = some X ∧ specStat d dst = some X' ∧ X'.view = X.view ∧ X.isDir = false
+
 /-- the statements of `do_link` after the two copy-ups -/
 def linkTail (src pp : Path) (n : Name) : M Unit := do
   let sm ← getNode src
@@ -122,8 +128,9 @@ theorem linkTail_cons {s : St} (hc : Consistent s) (src pp : Path) (n : Name)
     {sr : Real} {srest : List Real} (hsr : sm.reals = sr :: srest)
     (hnd : (s.disk.statReal sr).isDir = false) (hnw : (s.disk.statReal sr).isWhiteout = false)
     {pm : MNode} (hpm : s.mem pp = some pm) (hpu : pm.inUpper = true) (hlo : pm.loaded = true)
-    (hpw : pm.whiteout = false) :
-    Outcome (linkTail src pp n s) (fun _ s' => Consistent s') (fun s' => Consistent s') := by
+    (hpw : pm.whiteout = false) (hsp : src ≠ pp) :
+    Outcome (linkTail src pp n s) (fun _ s' => Consistent s' ∧ Linked src (n :: pp) s'.disk)
+      (fun s' => Consistent s') := by
   have hl := hc.toLocal
   obtain ⟨r0, _, hrl, hrp, _, _, rest0, hr0⟩ := upper_head hc hsm hsu
   have hrr : sr = r0 := by rw [hsr] at hr0; injection hr0
@@ -184,8 +191,52 @@ theorem linkTail_cons {s : St} (hc : Consistent s) (src pp : Path) (n : Name)
       | none => exact holdp
       | some o => exact ⟨holdp, howh o rfl⟩)
   cases hres : createTailG pp n false old (fun pr => pr.link sr.path n) s with
-  | ok u s' => rw [hres] at this; exact this.1
   | err e s' => rw [hres] at this; exact this
+  | ok u s' =>
+    rw [hres] at this
+    obtain ⟨hc', _, ⟨X', hX', hv'⟩, _, hdf, hmf⟩ := this
+    refine ⟨hc', X, X', ?_, hX', hv', hnd⟩
+    -- the source node is untouched
+    have hnb : (n :: pp).isSuffixOf src = false := by
+      cases hb : (n :: pp).isSuffixOf src with
+      | false => rfl
+      | true =>
+        exfalso
+        obtain ⟨t, ht⟩ := List.isSuffixOf_iff_suffix.1 hb
+        rcases List.eq_nil_or_concat t with rfl | ⟨t', c, rfl⟩
+        · exact hne (by simpa using ht.symm)
+        · have hsrc : t' ++ (c :: n :: pp) = src := by rw [← ht]; simp
+          rw [← hsrc] at hsm
+          obtain ⟨cm, hcm⟩ := mem_suffix_closed hc t' (c :: n :: pp) sm hsm
+          obtain ⟨o, ho, hckid⟩ := hl.reach c (n :: pp) cm hcm
+          -- the node at the new name has a child: it is neither absent nor a whiteout
+          cases old with
+          | none =>
+            obtain ⟨pm', hpm', hin⟩ := hl.reach n pp o ho
+            rw [hpm] at hpm'; cases hpm'
+            exact holdp hin
+          | some o' =>
+            have : s.mem (n :: pp) = some o' := holdp
+            rw [ho] at this; cases this
+            have how := howh o rfl
+            have hwh := hc.wh _ o ho
+            rw [how] at hwh
+            cases hor : o.reals with
+            | nil => rw [hor] at hwh; simp [headWhiteout] at hwh
+            | cons ro resto =>
+              rw [hor] at hwh
+              have hrow : ro.whiteout = true := by simpa [headWhiteout] using hwh.symm
+              have hsh := reals_shape hc ho ro (by simp [hor])
+              have hndo : (s.disk.statReal ro).isDir = false := by
+                have : (s.disk.nodeAt ro.layer (n :: pp)).isWhiteout = true := by rw [← hsh.2.2]; exact hrow
+                simp only [Disk.statReal, hsh.1]
+                cases hx : s.disk.nodeAt ro.layer (n :: pp) <;> simp_all [Node.isWhiteout, Node.isDir]
+              rw [(nondir_no_kids hc ho hor hndo).1] at hckid
+              cases hckid
+    have hsm' : s'.mem src = some sm := by rw [hmf src hsp hnb]; exact hsm
+    have hup' : UpNode src X s' := ⟨hc', ⟨sm, hsm', hsu⟩, by
+      rw [hdf src hne, ← hX]; simp [Disk.statReal, hrl, hrp]⟩
+    exact specStat_of_upNode hup' hnw
 
 theorem doLink_tail_eq (src pp : Path) (n : Name) :
     (do
@@ -204,7 +255,8 @@ theorem doLink_tail_eq (src pp : Path) (n : Name) :
 theorem doLink_spec (src pp : Path) (n : Name) (s : St) (hc : Consistent s)
     {pm : MNode} (hpm : s.mem pp = some pm) (hlo : pm.loaded = true)
     {rp : Real} {restp : List Real} (hrp : pm.reals = rp :: restp) (hpd : (s.disk.statReal rp).isDir = true) :
-    Outcome (doLink src pp n s) (fun _ s' => Consistent s') (fun s' => Consistent s') := by
+    Outcome (doLink src pp n s) (fun _ s' => Consistent s' ∧ Linked src (n :: pp) s'.disk)
+      (fun s' => Consistent s') := by
   unfold doLink
   rw [bind_ok (hasUpper_eval s)]
   cases hupb : s.disk.upper.isSome with
@@ -271,18 +323,30 @@ theorem doLink_spec (src pp : Path) (n : Name) (s : St) (hc : Consistent s)
             obtain ⟨pm2', rp2, restp2, hpm2', hrp2, hpd2, _⟩ := (hcp1.stat.trans hcp2.stat) pp pm rp restp hpm hrp
             rw [hpm2] at hpm2'; cases hpm2'
             have hpw2 : pm2.whiteout = false := dir_not_whiteout hc2 hpm2 hrp2 (by rw [hpd2]; exact hpd)
+            have hsrcpp : src ≠ pp := by
+              intro h
+              rw [h, below_self] at hnotanc
+              cases hnotanc
             exact linkTail_cons hc2 src pp n hsm2 hsu1 hr2 (by rw [hd2]; exact hsd) (hw2 hsnw)
-              hpm2 hpu2 (by rw [hlo2, hlo1]; exact hlo) hpw2
+              hpm2 hpu2 (by rw [hlo2, hlo1]; exact hlo) hpw2 hsrcpp
 
-/-- the whole LINK operation -/
-theorem runOp_link_cons (src dst : List Name) :
-    Triple Consistent (runOp (.link src dst)) (fun _ => Consistent) Consistent := by
+/-- the whole LINK operation: the cache stays valid, and on success both names show the same
+    non-directory -/
+theorem runOp_link_eff (src dst : List Name) :
+    Triple Consistent (runOp (.link src dst))
+      (fun _ s => Consistent s ∧ Linked src.reverse dst.reverse s.disk) Consistent := by
   unfold runOp
-  refine Triple.bind (resolve_cons src) fun r => ?_
+  refine Triple.bind (Q := fun r s => r.1 = src.reverse ∧ Consistent s) ?_ fun r => Triple.pure_pre fun hsrc => ?_
+  · intro s hs
+    have := resolve_spec s.disk src s ⟨hs, rfl⟩
+    exact ⟨fun a s' h => ⟨(this.1 a s' h).2.1, (this.1 a s' h).1.1⟩, fun e s' h => (this.2 e s' h).1.1⟩
   obtain ⟨sp, st⟩ := r
+  simp only at hsrc
   refine Triple.ite' (fun _ => Triple.fail' fun _ h => h) fun _ => ?_
-  refine Triple.bind (resolveParent_spec dst) fun r => ?_
+  refine Triple.bind (resolveParent_spec' dst) fun r => Triple.pure_pre fun hdst => ?_
   obtain ⟨pp, n⟩ := r
+  simp only at hdst
+  rw [← hsrc, ← hdst]
   -- from here on the disk is fixed until `do_link`
   intro s ⟨hc, std, hsp, hdd, _⟩
   have key : Triple (CD s.disk) (do
@@ -292,7 +356,7 @@ theorem runOp_link_cons (src dst : List Name) :
       if pm.whiteout then fail ENOENT else do
       doLink sp pp n
       let _ ← doLookup pp n
-      pure Reply.done) (fun _ => Consistent) Consistent := by
+      pure Reply.done) (fun _ s => Consistent s ∧ Linked sp (n :: pp) s.disk) Consistent := by
     refine Triple.bind ((lookupSelf_ro (loadDirectory_cd s.disk) sp).conseq (fun _ h => h) (fun _ _ h => h)
       (fun _ h => h.1)) fun sm => ?_
     refine Triple.ite' (fun _ => Triple.fail' fun _ h => h.1) fun _ => ?_
@@ -310,12 +374,16 @@ theorem runOp_link_cons (src dst : List Name) :
         obtain ⟨_, rp, restp, hrp, hstp⟩ := not_whiteout_of_spec hc' hm' (by rw [hd']; exact hsp)
         exact ⟨hc', hm', hload std hsp hdd, rp, restp, hrp, by rw [hstp]; exact hdd⟩
     · refine Triple.ite' (fun _ => Triple.fail' fun _ h => h.1) fun _ => ?_
-      refine Triple.bind (Q := fun _ => Consistent) ?_ fun _ => ?_
+      refine Triple.bind (Q := fun _ s => Consistent s ∧ Linked sp (n :: pp) s.disk) ?_ fun _ => ?_
       · apply Triple.ofOutcome
         intro s2 ⟨hc2, hpm2, hlo2, rp, restp, hrp, hpd⟩
         exact doLink_spec sp pp n s2 hc2 hpm2 hlo2 hrp hpd
-      · refine Triple.bind (doLookup_cons pp n) fun _ => ?_
+      · refine Triple.bind (Triple.keepDisk (fun d => doLookup_ro (loadDirectory_cd d) pp n) _) fun _ => ?_
         exact Triple.pure' fun _ h => h
   exact key s ⟨hc, rfl⟩
+
+theorem runOp_link_cons (src dst : List Name) :
+    Triple Consistent (runOp (.link src dst)) (fun _ => Consistent) Consistent :=
+  (runOp_link_eff src dst).post fun _ _ h => h.1
 
 end Fbr.Ovl
